@@ -169,12 +169,63 @@ func (aw *armWalker) scanExpr(e ast.Expr, st []dstate) int {
 	if e == nil {
 		return -1
 	}
-	terms := flattenOr(e)
-	any := false
 	type tr struct {
 		k, sh int
 		n     ast.Node
 	}
+	// a decode helper: f(insts, ip±k) whose body is `return <bytes of its
+	// first parameter at offsets of its second, shifted and or-ed>` is read
+	// as that expression at the caller's offset
+	if call, isCall := ast.Unparen(e).(*ast.CallExpr); isCall && len(call.Args) == 2 && aw.baseVar == nil {
+		if hd := gHelpers[call]; hd != nil && hd.Body != nil && len(hd.Body.List) == 1 && hd.Recv == nil {
+			ret, isRet := hd.Body.List[0].(*ast.ReturnStmt)
+			var params []types.Object
+			for _, f := range hd.Type.Params.List {
+				for _, nm := range f.Names {
+					params = append(params, aw.p.TypesInfo.Defs[nm])
+				}
+			}
+			if isRet && len(ret.Results) == 1 && len(params) == 2 {
+				for ai := 0; ai < 2; ai++ {
+					if !aw.isInstsExpr(call.Args[ai]) {
+						continue
+					}
+					k0, okA := aw.affine(call.Args[1-ai])
+					if !okA {
+						continue
+					}
+					sub := &armWalker{w: aw.w, p: aw.p, vi: aw.vi, a: &ArmAnalysis{GroupVar: map[int]types.Object{}}, insVar: params[ai], baseVar: params[1-ai]}
+					var trs []tr
+					good := true
+					for _, t := range flattenOr(ret.Results[0]) {
+						k, sh, _, ok := sub.term(t)
+						if !ok {
+							good = false
+							break
+						}
+						trs = append(trs, tr{k0 + k, sh, call})
+					}
+					if !good || len(trs) == 0 {
+						continue
+					}
+					grp := aw.a.nextGrp
+					aw.a.nextGrp++
+					for _, s := range st {
+						if s.top {
+							aw.a.Undecided = append(aw.a.Undecided, "instruction byte read after the instruction pointer was reassigned: "+aw.w.Src(e))
+							continue
+						}
+						for _, t := range trs {
+							aw.a.Reads = append(aw.a.Reads, byteRead{Off: s.d + t.k, Shift: t.sh, Group: grp, Node: t.n})
+						}
+					}
+					return grp
+				}
+			}
+		}
+	}
+	terms := flattenOr(e)
+	any := false
 	var trs []tr
 	var rest []ast.Expr
 	for _, t := range terms {
@@ -721,6 +772,17 @@ func (w *World) emitSites() []emitSite {
 				// `switch <same variable> { case A, B: … }`
 				obj := p.TypesInfo.Uses[id]
 				for i := len(stack) - 1; i > 0 && es.Ops == nil; i-- {
+					// `if v == OpA || v == OpB { … }` / `if isJumpOpcode(v) { … }`
+					if is, isIf := stack[i].(*ast.IfStmt); isIf && i+1 < len(stack) && stack[i+1] == ast.Node(is.Body) {
+						if subj, ops, ok := w.opcodeSetOfCond(p, is.Cond); ok && subj == obj {
+							for _, name := range oi.Names {
+								if ops[name] {
+									es.Ops = append(es.Ops, name)
+								}
+							}
+						}
+						continue
+					}
 					cc, ok := stack[i].(*ast.CaseClause)
 					if !ok || cc.List == nil || i < 2 {
 						continue
@@ -1163,39 +1225,15 @@ func ruleCODEC5(c *Ctx) {
 			}
 			return true
 		})
-		// the same dispatch written as `if opcode == A || opcode == B || …`
+		// the same dispatch written as `if opcode == A || opcode == B || …` or `if isJumpOpcode(opcode)`
 		ast.Inspect(opt.Body, func(nd ast.Node) bool {
 			is, ok := nd.(*ast.IfStmt)
 			if !ok {
 				return true
 			}
-			ds := splitOr(is.Cond)
-			if len(ds) < 2 {
+			_, ops, ok := w.opcodeSetOfCond(p, is.Cond)
+			if !ok || len(ops) < 2 {
 				return true
-			}
-			ops := map[string]bool{}
-			var subj string
-			for _, d := range ds {
-				b, ok := ast.Unparen(d).(*ast.BinaryExpr)
-				if !ok || b.Op != token.EQL {
-					return true
-				}
-				x, y := b.X, b.Y
-				cobj := ConstObj(p, y)
-				if cobj == nil {
-					cobj, x = ConstObj(p, x), y
-				}
-				if cobj == nil {
-					return true
-				}
-				if _, isOp := oi.Val[cobj.Name()]; !isOp {
-					return true
-				}
-				if subj != "" && subj != w.Src(x) {
-					return true
-				}
-				subj = w.Src(x)
-				ops[cobj.Name()] = true
 			}
 			n++
 			c.check(sameSet(ops, jump), fmt.Sprintf("optimizer/jump-set#%d", n), is,
@@ -1678,4 +1716,113 @@ func splitAnd(e ast.Expr) []ast.Expr {
 		return append(splitAnd(b.X), splitAnd(b.Y)...)
 	}
 	return []ast.Expr{e}
+}
+
+// opcodeSetOfCond: cond is true for exactly a set of opcodes held in one
+// variable: `v == OpA || v == OpB …`, or a call pred(v) of a function of the
+// module with one Opcode parameter and a bool result whose body, evaluated for
+// every opcode constant (execFor on its parameter), returns a constant.
+func (w *World) opcodeSetOfCond(p pkgT, cond ast.Expr) (types.Object, map[string]bool, bool) {
+	oi := w.opcodes()
+	cond = ast.Unparen(cond)
+	if call, ok := cond.(*ast.CallExpr); ok && len(call.Args) == 1 {
+		fn := Callee(p, call)
+		id, isId := ast.Unparen(call.Args[0]).(*ast.Ident)
+		if fn == nil || !isId || !w.inModulePkg(fn.Pkg()) {
+			return nil, nil, false
+		}
+		var fd *ast.FuncDecl
+		for _, pk := range w.All {
+			if pk.Types == fn.Pkg() {
+				fd = w.FuncDecl(pk, fn.Name())
+				p = pk
+			}
+		}
+		if fd == nil || fd.Recv != nil || fd.Type.Params.NumFields() != 1 || len(fd.Type.Params.List[0].Names) != 1 {
+			return nil, nil, false
+		}
+		param := p.TypesInfo.Defs[fd.Type.Params.List[0].Names[0]]
+		if param == nil || !strings.HasSuffix(types.TypeString(param.Type(), nil), "parser.Opcode") {
+			return nil, nil, false
+		}
+		isParam := func(e ast.Expr) bool {
+			x, ok := ast.Unparen(e).(*ast.Ident)
+			return ok && p.TypesInfo.ObjectOf(x) == param
+		}
+		ops := map[string]bool{}
+		for _, name := range oi.Names {
+			co := w.Parser.Types.Scope().Lookup(name)
+			if co == nil {
+				return nil, nil, false
+			}
+			run := execFor(p, fd.Body.List, isParam, co)
+			decided := false
+			for _, st := range run {
+				r, ok := st.(*ast.ReturnStmt)
+				if !ok {
+					if _, isIf := st.(*ast.IfStmt); isIf {
+						return nil, nil, false // a condition execFor could not evaluate
+					}
+					continue
+				}
+				if len(r.Results) != 1 {
+					return nil, nil, false
+				}
+				if b, ok := constBool(p, r.Results[0]); ok {
+					if b {
+						ops[name] = true
+					}
+					decided = true
+				} else if _, sub, ok := w.opcodeSetOfCond(p, r.Results[0]); ok {
+					if sub[name] {
+						ops[name] = true
+					}
+					decided = true
+				}
+				break
+			}
+			if !decided {
+				return nil, nil, false
+			}
+		}
+		// the caller's variable
+		var callerObj types.Object
+		for _, pk := range w.All {
+			if o := pk.TypesInfo.ObjectOf(id); o != nil {
+				callerObj = o
+			}
+		}
+		return callerObj, ops, callerObj != nil
+	}
+	ds := splitOr(cond)
+	ops := map[string]bool{}
+	var subj types.Object
+	for _, d := range ds {
+		b, ok := ast.Unparen(d).(*ast.BinaryExpr)
+		if !ok || b.Op != token.EQL {
+			return nil, nil, false
+		}
+		x, y := b.X, b.Y
+		cobj := ConstObj(p, y)
+		if cobj == nil {
+			cobj, x = ConstObj(p, x), y
+		}
+		if cobj == nil {
+			return nil, nil, false
+		}
+		if _, isOp := oi.Val[cobj.Name()]; !isOp {
+			return nil, nil, false
+		}
+		id, ok := ast.Unparen(x).(*ast.Ident)
+		if !ok {
+			return nil, nil, false
+		}
+		o := p.TypesInfo.ObjectOf(id)
+		if subj != nil && subj != o {
+			return nil, nil, false
+		}
+		subj = o
+		ops[cobj.Name()] = true
+	}
+	return subj, ops, subj != nil
 }
